@@ -2,6 +2,7 @@ import SV.Model.C01
 import SV.Model.C02
 import SV.Model.C11
 import SV.Model.C16
+import SV.Model.C17
 import SV.Model.PolyOps
 /-!
 `svdriver <property>`: reads one request per line on stdin, prints the model's response.
@@ -15,6 +16,7 @@ def dispatch (prop : String) : Option (String → String) :=
   | "C02" => some C02.Driver.handle
   | "C11" => some C11.Driver.handle
   | "C16" => some C16.handle
+  | "C17" => some C17.Driver.handle
   | "POLY" => some PolyOps.handle
   | _ => none
 
